@@ -17,13 +17,13 @@ RULE = (
     "(a) breadth-first search over ProjectSettings states reached by sequences of constructor / update_time_vector / property-setter calls over the start, end and dt alphabets "
     "(state = (start, end, dt), deduplicated exactly), grid invariants evaluated in every state with exact rational arithmetic on the inputs; "
     "(b) every model of the product spaces in mc/simspace.py is run on the real simulator AND on the independent reference simulator mc/refsim.py and compared at every time index "
-    "(stocks, elapsed-time bins, flows, parameters, characteristics; rtol 1e-8). Non-trivial: (a) a state whose span is not a multiple of dt or whose dt is not exactly representable; (b) a run with a non-zero flow."
+    "(stocks, elapsed-time bins, flows, parameters, characteristics; rtol 1e-8); the same for the 16 library models that can be imported into the reference simulator, with and without their program books. Non-trivial: (a) a state whose span is not a multiple of dt or whose dt is not exactly representable; (b) a run with a non-zero flow."
 )
 ASSUMPTIONS = [
     "reference simulator written from the documentation (mc/refsim.py); its traces are bound to the implementation by the comparison itself (traces_validated_against_impl)",
     "bounds of mc/simspace.py; settings alphabets listed in mc/props/c03.py; operation sequences up to the stated depth",
     "an end year / span is 'k steps' when (end-start)/dt is within 1e-9 of an integer (the property's 'up to rounding error')",
-    "library models are not re-implemented from their spreadsheets in this check",
+    "library models: structure, numbers and function strings are imported from the loaded framework / parameter set / program set; initial compartment sizes are taken from the implementation's index 0 (initialisation is C07's subject); malaria (no databook, derivative parameters) and combined (several population types) are not imported",
 ]
 CASE_TIMEOUT = 300
 
@@ -53,7 +53,50 @@ def cases(tier):
         for s in STARTS["quick"]:
             for dt in DTSX["quick"]:
                 yield dict(kind="grid", start=s, dt=dt, tier="quick", depth=3)
+    for name in LIBRARY:
+        for dt in (None,) if tier == "quick" else (None, 1.0, 0.1, 1 / 12):
+            for progs in (False, True):
+                yield dict(kind="library", name=name, dt=dt, progs=progs, years=6 if tier == "quick" else 12)
     yield from ({"kind": "sim", "spec": s} for s in simspace.all_sim(tier))
+
+
+LIBRARY = ["sir", "sir_vaccine", "udt", "udt_dyn", "usdt", "dt", "service", "tb_simple", "tb_simple_dyn", "hypertension", "hypertension_dyn", "cervicalcancer", "diabetes", "hiv", "hiv_dyn", "tb"]
+
+
+def run_library(case):
+    """a library model is imported into the reference simulator's spec format (numbers + structure + function strings) and both are compared at every index"""
+    import warnings
+
+    warnings.filterwarnings("ignore")
+    from mc import libimport
+
+    name = case["name"]
+    P = at.Project(framework=at.LIBRARY_PATH / f"{name}_framework.xlsx", databook=at.LIBRARY_PATH / f"{name}_databook.xlsx", do_run=False)
+    kw = dict(end=P.settings.sim_start + case["years"])
+    if case["dt"]:
+        kw["dt"] = case["dt"]
+    P.settings.update_time_vector(**kw)
+    ps = ins = None
+    pb = at.LIBRARY_PATH / f"{name}_progbook.xlsx"
+    if case["progs"]:
+        if not pb.exists():
+            return dict(states=0, transitions=0, nontrivial=False, violations=[], counters=dict(library_without_progbook=1))
+        ps = at.ProgramSet.from_spreadsheet(pb, framework=P.framework, data=P.data)
+        start = P.settings.sim_start + 2
+        ins = at.ProgramInstructions(start_year=start)
+    r = P.run_sim(P.parsets[0], ps, ins, store_results=False)
+    try:
+        spec = libimport.spec_from_project(P, P.parsets[0], r)
+        if ps is not None:
+            spec["progs"] = libimport.progs_from_progset(ps, start)
+    except libimport.Unsupported as e:
+        return dict(states=0, transitions=0, nontrivial=False, violations=[], counters=dict(library_unsupported=1))
+    tr = refsim.simulate(spec)
+    vs = conform.compare(tr, r)
+    for v in vs:
+        v["what"] = f"library model {name} (dt={case['dt']}, programs={case['progs']}): " + v["what"]
+    T = len(tr.t)
+    return dict(states=T, transitions=T - 1, traces=1, nontrivial=True, violations=vs[:5], counters=dict(library_traces=1))
 
 
 def ops_for(tier):
@@ -230,6 +273,8 @@ def explore_grid(case):
 def run_case(case):
     if case["kind"] == "grid":
         return explore_grid(case)
+    if case["kind"] == "library":
+        return run_library(case)
     spec = case["spec"]
     g = spec.get("gadget")
     if g is not None and not g["ok"]:
